@@ -100,7 +100,9 @@ func (w *world) runCase(c tcase, withHSM bool) (res *caseResult) {
 	}
 	actions, err := w.decodeActions(c)
 	if err != nil {
-		ev.Fatal("actions: %v", err)
+		// the repository's action decoders were given the JSON a client sends for a fundable list
+		fail("action-decoder-refuses-wellformed-action", "an action of a fundable list is refused by its decoder: "+err.Error(), nil)
+		return
 	}
 
 	stage = "build"
